@@ -73,7 +73,13 @@ Error BaseBuilder::new_label_node(Out<LabelNode*> out) {
   out = nullptr;
 
   ASMJIT_PROPAGATE(new_node_t<LabelNode>(out));
-  return register_label_node(*out);
+
+  // The node must not be returned when it could not be registered (`out` can be the caller's cache of the node).
+  Error err = register_label_node(*out);
+  if (ASMJIT_UNLIKELY(err != Error::kOk)) {
+    out = nullptr;
+  }
+  return err;
 }
 
 Error BaseBuilder::new_align_node(Out<AlignNode*> out, AlignMode align_mode, uint32_t alignment) {
@@ -116,7 +122,13 @@ Error BaseBuilder::new_const_pool_node(Out<ConstPoolNode*> out) {
   out = nullptr;
 
   ASMJIT_PROPAGATE(new_node_t<ConstPoolNode>(out, _builder_arena));
-  return register_label_node(*out);
+
+  // The node must not be returned when it could not be registered (`out` can be the caller's cache of the node).
+  Error err = register_label_node(*out);
+  if (ASMJIT_UNLIKELY(err != Error::kOk)) {
+    out = nullptr;
+  }
+  return err;
 }
 
 Error BaseBuilder::new_comment_node(Out<CommentNode*> out, const char* data, size_t size) {
